@@ -397,6 +397,9 @@ Definition final_kv (evs : list eop) : list (N * option einfo) :=
 Definition fresh_etcd (kv : list (N * option einfo)) : estate :=
   run_etcd (map (fun e => EPut (fst e) (snd e)) kv).
 
+Definition fresh_etcd_unrepaired (kv : list (N * option einfo)) : estate :=
+  run_etcd_unrepaired (map (fun e => EPut (fst e) (snd e)) kv).
+
 (* backendStorageEtcd.GetBackend through BackendConfiguration *)
 Definition lookup_etcd (st : estate) (probe : string) : lres :=
   match url_parse probe with
